@@ -367,32 +367,48 @@ func (s *Solver) checkOn(be Backend, asserts []*Term, want []*Term, timeoutMS in
 		fmt.Fprintf(&b, "(assert %s)\n", a.ref())
 	}
 	b.WriteString("(check-sat)\n")
-	if _, err := io.WriteString(p.in, b.String()); err != nil {
-		p.broken = true
-		return Unknown, nil, err
+	script := b.String()
+
+	type outcome struct {
+		res   Result
+		model map[*Term]uint64
+		err   error
 	}
-	type lineRes struct {
-		l   string
-		err error
-	}
-	ch := make(chan lineRes, 1)
+	ch := make(chan outcome, 1)
+	// The whole exchange (write, read, get-value) runs beside a hard deadline:
+	// a solver that ignores its own soft timeout, or stops reading its input,
+	// is killed, which also unblocks the exchange.
 	go func() {
-		l, err := p.readLine()
-		ch <- lineRes{l, err}
+		res, model, err := p.exchange(script, want)
+		ch <- outcome{res, model, err}
 	}()
-	var line string
 	select {
-	case lr := <-ch:
-		if lr.err != nil {
+	case o := <-ch:
+		if o.err != nil {
 			p.broken = true
-			return Unknown, nil, lr.err
+			p.kill()
+			return Unknown, nil, o.err
 		}
-		line = lr.l
+		if o.res == Unknown {
+			bs.Unknown++
+		}
+		return o.res, o.model, nil
 	case <-time.After(time.Duration(timeoutMS+5000) * time.Millisecond):
 		p.broken = true
 		p.kill()
+		<-ch
 		bs.Unknown++
 		return Unknown, nil, nil
+	}
+}
+
+func (p *proc) exchange(script string, want []*Term) (Result, map[*Term]uint64, error) {
+	if _, err := io.WriteString(p.in, script); err != nil {
+		return Unknown, nil, err
+	}
+	line, err := p.readLine()
+	if err != nil {
+		return Unknown, nil, err
 	}
 	var res Result
 	switch {
@@ -402,11 +418,8 @@ func (s *Solver) checkOn(be Backend, asserts []*Term, want []*Term, timeoutMS in
 		res = Unsat
 	case line == "unknown" || line == "timeout":
 		res = Unknown
-		bs.Unknown++
 	default:
-		// includes "(error ...": treat as inconclusive and restart the process
-		p.broken = true
-		p.kill()
+		// includes "(error ...": inconclusive; the process is restarted
 		return Unknown, nil, fmt.Errorf("unexpected solver output: %s", line)
 	}
 	var model map[*Term]uint64
@@ -419,23 +432,17 @@ func (s *Solver) checkOn(be Backend, asserts []*Term, want []*Term, timeoutMS in
 		}
 		q.WriteString("))\n")
 		if _, err := io.WriteString(p.in, q.String()); err != nil {
-			p.broken = true
 			return Unknown, nil, err
 		}
 		sx, err := p.readSexp()
 		if err != nil {
-			p.broken = true
 			return Unknown, nil, err
 		}
 		if strings.Contains(sx, "(error") {
-			p.broken = true
-			p.kill()
 			return Unknown, nil, fmt.Errorf("get-value: %s", sx)
 		}
 		vals, err := parseValues(sx, len(want))
 		if err != nil {
-			p.broken = true
-			p.kill()
 			return Unknown, nil, err
 		}
 		model = map[*Term]uint64{}
@@ -444,7 +451,7 @@ func (s *Solver) checkOn(be Backend, asserts []*Term, want []*Term, timeoutMS in
 		}
 	}
 	if _, err := io.WriteString(p.in, "(reset)\n"); err != nil {
-		p.broken = true
+		return Unknown, nil, err
 	}
 	return res, model, nil
 }
